@@ -45,11 +45,17 @@ theorem shifted_quot_fits (prof : Profile) (x : Int) (p : Nat) (y q r : Int)
     · rw [if_neg hx] at h
       by_cases hy : y < 0
       · rw [if_pos hy] at h
-        obtain ⟨q1, _, h⟩ := bind_inv h
-        obtain ⟨q2, hq2, h⟩ := bind_inv h
-        obtain ⟨r2, _, h⟩ := bind_inv h
-        have h1 := (Prod.mk.inj (Option.some.inj (Outcome.ok.inj h))).1
-        rw [← h1]; exact plainI128_fits prof _ _ hq2
+        by_cases hr : IntTy.i128.cast (r' : Int) = 0
+        · rw [if_pos hr] at h
+          obtain ⟨q1, hq1, h⟩ := bind_inv h
+          have h1 := (Prod.mk.inj (Option.some.inj (Outcome.ok.inj h))).1
+          rw [← h1]; exact neg_fits prof _ _ hq1
+        · rw [if_neg hr] at h
+          obtain ⟨q1, _, h⟩ := bind_inv h
+          obtain ⟨q2, hq2, h⟩ := bind_inv h
+          obtain ⟨r2, _, h⟩ := bind_inv h
+          have h1 := (Prod.mk.inj (Option.some.inj (Outcome.ok.inj h))).1
+          rw [← h1]; exact plainI128_fits prof _ _ hq2
       · rw [if_neg hy] at h
         have h1 := (Prod.mk.inj (Option.some.inj (Outcome.ok.inj h))).1
         rw [← h1]; exact hxl
